@@ -170,6 +170,7 @@ impl Check for RwaReal {
         let mods: std::vec::Vec<Address> = (0..if cfg.many_modules { 25 } else { 3 }).map(|_| e.register(Module, ())).collect();
         let mut m = Model::default();
         for (i, s) in steps.iter().enumerate() {
+            let mut parked: Option<Violation> = None;
             if let Step::Wait { n } = s {
                 w.advance(*n);
                 st.ledgers += *n as u64;
@@ -235,19 +236,22 @@ impl Check for RwaReal {
                     let check = match (kind, got) { ("transfer", true) => "gate.transfer", ("mint", true) => "gate.mint", ("add_module_to" | "remove_module_from", _) => "modules.dup_or_absent_refused", (_, true) => "refine.must_fail", _ => "live.open_gates_succeed" };
                     return Err(violation(check, kind, i, format!("{s:?}: real {got} model {exp}; model {m:?}")));
                 }
-                if !got && w.storage_digest(&[&tok, &comp, &mods[0], &mods[1], &mods[2]]) != before { return Err(violation("fail.no_trace", kind, i, format!("{s:?}"))); }
+                if !got && w.storage_digest(&[&tok, &comp, &mods[0], &mods[1], &mods[2]]) != before { self.clause(st, &mut parked, violation("fail.no_trace", kind, i, format!("{s:?}")))?; }
             }
             for k in 0..mods.len() {
                 let have = ModuleClient::new(e, &mods[k]).counts();
-                if have != *m.counts.get(&k).unwrap_or(&(0, 0, 0)) { return Err(violation("notify.exactly_once", "module", i, format!("module {k} saw {have:?}, expected {:?} after {s:?}", m.counts.get(&k)))); }
+                if have != *m.counts.get(&k).unwrap_or(&(0, 0, 0)) { self.clause(st, &mut parked, violation("notify.exactly_once", "module", i, format!("module {k} saw {have:?}, expected {:?} after {s:?}", m.counts.get(&k))))?; }
             }
             for h in 0..5 {
                 let got: std::vec::Vec<Address> = cc.get_modules_for_hook(&HOOKS[h]).iter().collect();
                 let want: std::vec::Vec<Address> = m.mods(h).iter().map(|k| mods[*k].clone()).collect();
-                if got != want { return Err(violation("modules.getters_eq_model", "get_modules_for_hook", i, format!("hook {h} after {s:?}"))); }
-                for k in 0..mods.len() { if cc.is_module_registered(&HOOKS[h], &mods[k]) != m.mods(h).contains(&k) { return Err(violation("modules.getters_eq_model", "is_module_registered", i, format!("hook {h} module {k}"))); } }
+                if got != want { self.clause(st, &mut parked, violation("modules.getters_eq_model", "get_modules_for_hook", i, format!("hook {h} after {s:?}")))?; }
+                for k in 0..mods.len() { if cc.is_module_registered(&HOOKS[h], &mods[k]) != m.mods(h).contains(&k) { self.clause(st, &mut parked, violation("modules.getters_eq_model", "is_module_registered", i, format!("hook {h} module {k}")))?; } }
             }
-            for x in 0..cfg.actors { if c.balance(&a(x)) != m.b(x) { return Err(violation("state.model_eq", "balance", i, format!("actor {x} after {s:?}"))); } }
+            for x in 0..cfg.actors { if c.balance(&a(x)) != m.b(x) { self.clause(st, &mut parked, violation("state.model_eq", "balance", i, format!("actor {x} after {s:?}")))?; } }
+            if let Some(v) = parked.take() {
+                return Err(v);
+            }
             st.state(&(m.hooks.clone(), m.bound, m.reg.clone()));
         }
         Ok(())
